@@ -176,6 +176,9 @@ def _api(ctx, repo, v) -> None:
                     fargs = {eps[i]: norm(a) for i, a in enumerate(fwd.args) if i < len(eps)}
                     fargs.update({k.arg: norm(k.value) for k in fwd.keywords if k.arg})
                     fargs = [fargs.get(p_) for p_ in eps]
+                body = [st for st in m.body if not (isinstance(st, ast.Expr) and isinstance(st.value, ast.Constant))]
+                pure = len(body) == 1 and isinstance(body[0], (ast.Expr, ast.Return)) and body[0].value is fwd
+                ctx.check("C02.api", m, pure, f"{tag}: InstrumentationExecutionTracer.{s.method} is not a plain forwarder (it has state, a condition or an early return of its own): calls made by the instrumented module are dropped or altered before they reach the tracer that holds the trace", what=f"{tag}: the proxy method only forwards", stmt=f"{tag} pure")
                 ok = len(ips) == len(s.arg_alts) and fargs == ips and eps == ips
                 ctx.check("C02.api", s.call, ok, f"{tag}: InstrumentationExecutionTracer.{s.method}({', '.join(ips)}) forwards {fargs} to ExecutionTracer.{s.method}({', '.join(eps)}); the template passes {len(s.arg_alts)} argument(s)", what=f"{tag}: arity and forwarding order agree", stmt=tag)
 
